@@ -320,3 +320,9 @@ from vlib import lifecheck as _life   # noqa: E402
          "assigned again equals that of a fresh object on the samples now held: pminvar")
 def c16_life(ctx, case):
     _life.body(ctx, case)
+
+
+@sub("C16.life_grid", enum=_life.life_enum(['pminvar']), exhaustive=True, shards_quick=2, shards_thorough=2,
+     doc="the same on a fixed grid: every action x real/complex x default/centred layout for pminvar")
+def c16_life_grid(ctx, case):
+    _life.body(ctx, case)
